@@ -304,11 +304,19 @@ def build_scene(rec):
     return s
 
 
-def observe(s, rays):
+# spectral settings of the observing rays: they alternate from one observation to the next (and differ between the rays of an
+# observation), so that whatever a model remembers from the previous observation's rays (a normalisation by the spectral range,
+# a bin width) meets another range in the live scene but not in the scene built from scratch
+WINDOWS = [[(WL_MIN, WL_MAX, BINS)] * 4,
+           [(WL_MIN + 30.0, WL_MAX - 90.0, BINS // 2), (WL_MIN, WL_MAX, BINS), (WL_MIN + 100.0, WL_MAX, BINS - 7), (WL_MIN, WL_MAX - 20.0, BINS)]]
+
+
+def observe(s, rays, variant=0):
     out = []
-    for o, t in rays:
+    for k, (o, t) in enumerate(rays):
         d = Vector3D(t[0] - o[0], t[1] - o[1], t[2] - o[2]).normalise()
-        ray = Ray(Point3D(*o), d, min_wavelength=WL_MIN, max_wavelength=WL_MAX, bins=BINS)
+        w0, w1, nb = WINDOWS[variant % 2][k % 4]
+        ray = Ray(Point3D(*o), d, min_wavelength=w0, max_wavelength=w1, bins=nb)
         out.append(np.array(ray.trace(s.world).samples))
     extra = []
     p = s.plasma
@@ -328,9 +336,9 @@ def observe(s, rays):
     return out
 
 
-def safe_observe(s, rays):
+def safe_observe(s, rays, variant=0):
     try:
-        return observe(s, rays), None
+        return observe(s, rays, variant), None
     except Exception as e:  # noqa: the type is compared between live and fresh
         return None, e
 
@@ -356,9 +364,9 @@ class SceneBase:
 
     # -------- comparison
     def _compare(self, where):
-        live, e_live = safe_observe(self.live, self.RAYS)
+        live, e_live = safe_observe(self.live, self.RAYS, self.n_obs)
         fresh_scene = build_scene(self.rec)
-        fresh, e_fresh = safe_observe(fresh_scene, self.RAYS)
+        fresh, e_fresh = safe_observe(fresh_scene, self.RAYS, self.n_obs)
         if (e_live is None) != (e_fresh is None) or (e_live is not None and type(e_live) is not type(e_fresh)):
             self.ctx.fail("exception", "%s: live scene %s, scene built from scratch %s" % (
                 where, "raised %s: %s" % (type(e_live).__name__, e_live) if e_live else "observed fine",
@@ -376,9 +384,14 @@ class SceneBase:
             self.ctx.label("observe:ok")
             if any(np.any(b[:] != 0) for b in fresh[:-1]):
                 self.ctx.label("observe:emission")
-        if self.last_fresh is not None and self.mut_since_obs > 0 and fresh_key != self.last_fresh:
+        # non-trivial = some mutator changed what a from-scratch scene shows: compared with the previous observation made with the
+        # same spectral settings (they alternate), so that the change of settings itself does not count
+        var = self.n_obs % 2
+        prev = (self.last_fresh or {}).get(var)
+        if prev is not None and self.n_mut > prev[1] and fresh_key != prev[0]:
             self.nt = True
-        self.last_fresh = fresh_key
+        self.last_fresh = dict(self.last_fresh or {})
+        self.last_fresh[var] = (fresh_key, self.n_mut)
         self.mut_since_obs = 0
         self.n_obs += 1
 
